@@ -48,6 +48,13 @@ def cases():
     C.append(("np.concatenate([x, c]) with inf / nan entries in the constant c (finite part of the result)", lambda np, x: np.concatenate([x, NFp])[:3] * 2.0 + np.append(NFp, x)[3:] + np.hstack([x, NFp])[:3], x0, lambda x, v: 4.0 * v))
     C.append(("min / max over an array padded with +-inf sentinels", lambda np, x: np.min(np.concatenate([x, onp.array([onp.inf])])) + np.max(np.concatenate([onp.array([-onp.inf]), x])) + 0.0 * x, x0,
               lambda x, v: (v[onp.argmin(x)] + v[onp.argmax(x)]) + 0.0 * x))
+    # a real array made complex by a constructor (the cast itself is the primitive): real cotangent for the real argument
+    C.append(("np.real(np.array(x, dtype=complex) * (1+2j)) + np.imag(np.array(x, dtype=complex, ndmin=1) * (1+2j))", lambda np, x: np.real(np.array(x, dtype=complex) * (1.0 + 2.0j)) + np.imag(np.array(x, dtype=complex, ndmin=1) * (1.0 + 2.0j)), x0,
+              lambda x, v: 3.0 * v))
+    C.append(("np.abs(x.astype(complex) * (1+2j)) ** 2", lambda np, x: np.abs(x.astype(complex) * (1.0 + 2.0j)) ** 2, x0, lambda x, v: 10.0 * x * v))
+    # casts to a non-float dtype are piecewise constant (truncation): used as a factor they contribute no derivative
+    C.append(("x * x.astype(int) + x * np.array(x, dtype=int) (piecewise-constant factors)", lambda np, x: x * x.astype(int) + x * np.array(x, dtype=int), onp.array([0.5, 2.7, -4.2]),
+              lambda x, v: 2.0 * v * onp.trunc(x)))
     # NaN-ignoring selectors: where the OTHER operand is NaN the result is x itself (derivative 1): a regular point
     YN = onp.array([onp.nan, 1.0, onp.nan])
     C.append(("np.fmax(x, y) with NaN entries in y", lambda np, x: np.fmax(x, YN), x0, lambda x, v: v * onp.where(onp.isnan(YN) | (x > YN), 1.0, 0.0)))
@@ -83,6 +90,48 @@ def adjoint_points():
         ("np.abs / np.absolute at 0", lambda np, x: np.abs(x) + np.absolute(x * 2.0), xb),
         ("np.sort with ties", lambda np, x: np.sort(x) * onp.arange(1.0, 5.0), xt),
     ]
+
+
+def run_linear_extreme(seed=0):
+    """C03 / C01 for rules whose Jacobian has entries 0 / +-1 only (cumsum, diff, flips, gathers, pads, reductions ...):
+    their VJP is an exact rearrangement / short sum of cotangent entries, so it must stay right when the cotangent spans
+    40 orders of magnitude (a rule rewritten as total - running sum is exact in real arithmetic and loses every small
+    entry next to a large one).  Reference: J^T g with J read off NumPy's own function and each entry summed exactly."""
+    import math
+    import numpy as onp
+    import autograd.numpy as np
+    from autograd import make_vjp
+
+    x0 = onp.array([0.3, -1.2, 2.5, 0.7, -0.4, 1.9])
+    fns = [("np.cumsum(x)", lambda np, x: np.cumsum(x)), ("np.cumsum(x.reshape(2,3), axis=1)", lambda np, x: np.cumsum(np.reshape(x, (2, 3)), axis=1)),
+           ("np.cumsum(x.reshape(2,3), axis=0)", lambda np, x: np.cumsum(np.reshape(x, (2, 3)), axis=0)), ("np.cumsum(x.reshape(3,2)) axis=None", lambda np, x: np.cumsum(np.reshape(x, (3, 2)))),
+           ("np.diff(x)", lambda np, x: np.diff(x)), ("np.diff(x, n=2)", lambda np, x: np.diff(x, n=2)), ("x[::-1] and np.roll", lambda np, x: x[::-1] + np.roll(x, 2)),
+           ("gather with repeats x[[0,0,5,2,0]]", lambda np, x: x[onp.array([0, 0, 5, 2, 0])]), ("np.sum(x.reshape(2,3), axis=0)", lambda np, x: np.sum(np.reshape(x, (2, 3)), axis=0)),
+           ("np.pad / np.concatenate / np.tile", lambda np, x: np.concatenate([np.pad(x, 1, "constant"), np.tile(x, 2)])), ("np.repeat(x, 3)", lambda np, x: np.repeat(x, 3)),
+           ("np.trace / np.diagonal / np.triu of x.reshape(2,3)", lambda np, x: np.concatenate([np.ravel(np.triu(np.reshape(x, (2, 3)))), np.diagonal(np.reshape(x, (2, 3)), 0, -1, -2), np.reshape(np.trace(np.reshape(x, (2, 3))), (1,))]))]
+    # (single primitives and concatenations of them only: sums over several graph paths are accumulated in floating
+    # point in an order the library is free to choose, 1e20 + 9 - 1e20 is not a claim about any rule)
+    scales = [1e20, 1.0, 3e-20, 7.0, 2e-5, 1e10, 0.0, 5e-13, 3.0, 2e20]  # one sign: no cancellation inside any exact sum
+    out = []
+    for lab, f in fns:
+        key = "PINNED extreme-range cotangent | %s: VJP == J^T g with |g| from 3e-20 to 1e20" % lab
+        try:
+            y0 = onp.asarray(f(onp, x0))
+            n_out = y0.size
+            J = onp.stack([onp.ravel(f(onp, onp.eye(6)[i])) - onp.ravel(f(onp, onp.zeros(6))) for i in range(6)], axis=1)  # (n_out, 6), f is linear
+            g = onp.array([scales[(3 * j + 1) % len(scales)] for j in range(n_out)]).reshape(y0.shape)
+            with warnings.catch_warnings():
+                warnings.simplefilter("ignore")
+                got = onp.ravel(onp.asarray(make_vjp(lambda x: f(np, x))(x0)[0](g), dtype=float))
+            gf = onp.ravel(g)
+            want = onp.array([math.fsum(J[j, i] * gf[j] for j in range(n_out)) for i in range(6)])
+            # tolerance relative to the largest term of each entry's own (short) sum - not to the largest entry of g
+            big = [max([abs(J[j, i] * gf[j]) for j in range(n_out)] + [1e-300]) for i in range(6)]
+            ok = got.shape == want.shape and all(abs(a - b) <= 1e-12 * m for a, b, m in zip(got, want, big))
+            out.append(_res(key, ok, "" if ok else "got %r, exact %r" % (got.tolist(), want.tolist())))
+        except Exception as e:
+            out.append({"key": key, "status": "raises", "detail": "%s: %s" % (type(e).__name__, str(e)[:100]), "paths": 1, "queries": 0, "validated": 0, "verdicts": {}, "prim": "pinned"})
+    return out
 
 
 def run_adjoint(seed=0):
@@ -133,7 +182,11 @@ def run(seed=0):
                     else:
                         y = onp.asarray(f(onp, x0), dtype=float)
                         g = onp.cos(onp.arange(y.size, dtype=float)).reshape(y.shape) + 1.5
-                        got = onp.asarray(make_vjp(lambda x: f(np, x))(x0)[0](g), dtype=float)
+                        raw = make_vjp(lambda x: f(np, x))(x0)[0](g)
+                        if onp.iscomplexobj(raw):
+                            out.append(_res(key, False, "the cotangent of a REAL argument came back complex: %r" % (onp.asarray(raw).tolist(),)))
+                            continue
+                        got = onp.asarray(raw, dtype=float)
                         # <vjp(g), e_i> = <g, J e_i>
                         wantv = onp.array([onp.sum(g * onp.asarray(dclosed(x0, e), dtype=float)) for e in onp.eye(3)])
                         ok = got.shape == x0.shape and bool(onp.all(onp.isfinite(got))) and onp.allclose(got, wantv, rtol=1e-9, atol=1e-12)
@@ -347,6 +400,15 @@ def run_complex(seed=0):
     for k in (0, 1, 2, 3):
         C.append(("z ** %d with 0j in z" % k, lambda np, z, _k=k: z ** _k, z0, lambda z, t, _k=k: t * (_k * z ** (_k - 1) if _k else 0.0 * z)))
         C.append(("np.power(z, %d) with 0j in z" % k, lambda np, z, _k=k: np.power(z, _k), z0, lambda z, t, _k=k: t * (_k * z ** (_k - 1) if _k else 0.0 * z)))
+    # a COMPLEX base differentiated w.r.t. the exponent: d/dw b**w = log(b) b**w with the complex logarithm (arg(b) included;
+    # log|b| alone is right for positive real bases only)
+    B0 = onp.array([0.5 + 1.5j, -2.0 + 0.5j, 1j])
+    W0 = onp.array([0.3 - 0.2j, 1.0 + 0.5j, -0.7 + 0.0j])
+    C.append(("b ** w w.r.t. the exponent, complex base b", lambda np, w: B0 ** w, W0, lambda w, t: onp.log(B0) * B0 ** w * t))
+    C.append(("np.power(b, w) w.r.t. the exponent, complex base b", lambda np, w: np.power(B0, w), W0, lambda w, t: onp.log(B0) * B0 ** w * t))
+    C.append(("np.real(b ** w) + np.abs(np.power(b, w)) ** 2, complex base", lambda np, w: np.real(B0 ** w) + np.abs(np.power(B0, w)) ** 2, W0,
+              lambda w, t: onp.real(onp.log(B0) * B0 ** w * t) + 2.0 * onp.real(onp.conj(B0 ** w) * onp.log(B0) * B0 ** w * t)))
+    C.append(("z ** w w.r.t. the base, complex exponent", lambda np, z: z ** W0, B0, lambda z, t: W0 * z ** (W0 - 1) * t))
     C.append(("z * z + np.conj(z) * z at 0j", lambda np, z: z * z + np.conj(z) * z, z0, lambda z, t: 2 * z * t + onp.conj(t) * z + onp.conj(z) * t))
     C.append(("np.real_if_close(z) * c on complex-typed z with zero imaginary parts (real result)", lambda np, z: np.real_if_close(z) * c3, zr, lambda z, t: onp.real(t) * c3))
     C.append(("np.sin(np.real_if_close(z)) on complex-typed z with zero imaginary parts", lambda np, z: np.sin(np.real_if_close(z)), zr, lambda z, t: onp.cos(onp.real(z)) * onp.real(t)))
